@@ -471,7 +471,7 @@ fn cow_part<D: Dom>(ctx: &Ctx, res: &mut PartResult, depth: usize, first: Option
         res.executions = n;
         res.exhaustive = complete;
         if !complete {
-            res.cap_hit = Some("wall budget".into());
+            res.cap_hit = Some("budget (cpu time of the part)".into());
         }
     }
     res.transitions = transitions;
@@ -605,7 +605,7 @@ fn public_api_part(ctx: &Ctx, res: &mut PartResult, depth: usize) {
         res.executions = n;
         res.exhaustive = complete;
         if !complete {
-            res.cap_hit = Some("wall budget".into());
+            res.cap_hit = Some("budget (cpu time of the part)".into());
         }
     }
     res.transitions = transitions;
